@@ -7,7 +7,7 @@ from . import c09
 
 PROP = 'C10'
 PLANS = {'quick': [('GOPS', 'all', 3, 1), ('GOPS2', 'all', 2, 1), ('GOPS', 'all', 2, 1, 'auto'), ('GOPS', 'all', 2, 0, 'dup'), ('GOPS', 'all', 2, 1, 'plain', 'busy')],
-         'thorough': [('GOPS', 'all', 4, 2), ('GOPS2', 'all', 4, 1), ('GOPS', 'all', 3, 1, 'auto'), ('GOPS', 'all', 3, 1, 'dup')]}
+         'thorough': [('GOPS', 'all', 3, 2), ('GOPS2', 'all', 3, 1), ('GOPS', 'all', 3, 1, 'auto'), ('GOPS', 'all', 2, 1, 'dup'), ('GOPS', 'all', 2, 1, 'plain', 'busy'), ('GOPS', 'all', 2, 1, 'plain', 'reloaded')]}
 VARIANTS = ['as_is', 'decorated']
 
 
